@@ -69,7 +69,7 @@ fn gen_rules(r: &mut Rng, host: &str, tok: &str) -> Vec<String> {
 
 pub fn run(ctx: &mut Ctx) {
     let sub = "csp";
-    let cases = ctx.n(300_000, 4_000_000);
+    let cases = ctx.n(300_000, 30_000_000);
     for idx in 0..cases {
         if ctx.stop() {
             break;
